@@ -852,7 +852,16 @@ def run(ctx, rep):
     cand = [ps for ps in fns if ps and ps[0][1] in ('PO', 'PK') and sum(1 for p in ps if p[1] == 'PK') >= 2]
     for ps in (shrng.sample(cand, min(len(cand), 90)) if ctx.quick else cand):
         for form, bound, sh in shared_scenarios(ps, shrng):
-            getter = build_shared(ps, sh)
+            try:
+                getter = build_shared(ps, sh)
+            except Exception as e:  # noqa: BLE001
+                # every form of a shared scenario is admissible for ps
+                rep.violation('C12:shared-raises',
+                              'decorating %s with the admissible forms %r raised %s: %s'
+                              % (ps, sh['forms'],
+                                 type(e).__name__, e),
+                              {'kind': 'shared-raises', 'ps': ps, 'shared': sh})
+                continue
             r = check_case(ps, form, bound, rep, stats, defer=deferred, getter=getter, shared=sh)
             nshared += 1
             if r is not None and r[0] != 'skip' and srng.random() < 0.15:
